@@ -23,49 +23,48 @@ Print Assumptions C17_wf_check_sound.
 
 (* A well-formed program cannot crash the VM model through the stack, an
    operand or a jump: in every state reachable from NewVM by Run's loop the
-   stack pointer is >= LocalCount, the only possible crashes are a type-directed
+   stack pointer is >= LocalCount, the only possible crash is a type-directed
    one (unchecked type assertion — needs the typed simulation of C16, hence
-   _partial) and — in the tree at HEAD, Vm.repeat_guarded = false — the host
-   crash of OpArrayRepeat on a count no array can have (finding
-   vm-repeat-huge-count-host-panic, C17_vm_repeat_no_host_crash_refuted below);
-   when the loop ends the instruction pointer is exactly at the end of the
-   code and sp = LocalCount. *)
+   _partial), and when the loop ends the instruction pointer is exactly at the
+   end of the code and sp = LocalCount.  (OpArrayRepeat: since 208ef1c a count
+   no array can have is ErrBadRepetition, Vm.repeat_guarded = true; before it
+   was a host crash, C17_vm_repeat_host_crash_before_fix.) *)
 Theorem C17_wf_vm_safe_partial : forall (p : program), WF (info_of p) ->
   forall s, reachable p s ->
     plcount p <= sp_of s /\
     match vm_step p s with
     | Running _ | Failed _ => True
     | Halted s' => ip s' = N.of_nat (List.length (pcode p)) /\ sp_of s' = plcount p
-    | Crashed c => c = CType \/ (repeat_guarded = false /\ c = CHost)
+    | Crashed c => c = CType
     end.
 Proof. exact wf_vm_safe_partial. Qed.
 Print Assumptions C17_wf_vm_safe_partial.
 
-(* REFUTED at HEAD: `executing well-formed bytecode never crashes the host`.
-   `a := [1 2] * 1000000000000000000` compiles to bytecode the validator
-   accepts; OpArrayRepeat computes make([]value, 0, 2*10^18): the Go runtime
-   panics (makeslice: cap out of range; reproduced on the real VM by the C17
-   harness, stream repeat-count).  The evaluator returns ErrBadRepetition
-   ("result too large") for every count above math.MaxInt32 / len; with the
-   same guard in the VM (proposed_fixes/C17-vm-repeat-count.diff,
-   arr_repeat true) the model returns that error too. *)
+(* Before 208ef1c `executing well-formed bytecode never crashes the host` was
+   false: `a := [1 2] * 1000000000000000000` compiles to bytecode the validator
+   accepts; OpArrayRepeat computed make([]value, 0, 2*10^18) and the Go runtime
+   panicked (makeslice: cap out of range; reproduced on the real VM by the C17
+   harness, stream repeat-count).  The model of that tree (arr_repeat false)
+   crashes with CHost on the very operands the compiled program (which runs
+   to ErrBadRepetition now) feeds to OpArrayRepeat. *)
 Definition ex_repeat_huge : slist :=
   SCons (SDecl (s_ "a") (EBin BStar TArr TNum
            (EArr (ECons (ENum (float_of_Z 1)) (ECons (ENum (float_of_Z 2)) ENil)))
            (ENum (float_of_Z 1000000000000000000)))) SNil.
 
-Theorem C17_vm_repeat_no_host_crash_refuted :
+Theorem C17_vm_repeat_host_crash_before_fix :
   match compile ex_repeat_huge with
   | COk st =>
       let bc := bytecode_of st in
       wf_check {| bcode := out_code bc; nconsts := N.of_nat (List.length (out_consts bc));
                   gcount := out_gcount bc; lcount := out_lcount bc |} = true /\
-      vm_run 100 (program_of bc) (vm_init (program_of bc)) = FCrashed CHost
+      vm_run 100 (program_of bc) (vm_init (program_of bc)) = FFailed EBadRepetition
   | CErr _ => False
   end /\
+  arr_repeat false (float_of_Z 1000000000000000000) [VNum (float_of_Z 1); VNum (float_of_Z 2)] = PCrash CHost /\
   arr_repeat true (float_of_Z 1000000000000000000) [VNum (float_of_Z 1); VNum (float_of_Z 2)] = PErr EBadRepetition.
 Proof. vm_compute. repeat split; reflexivity. Qed.
-Print Assumptions C17_vm_repeat_no_host_crash_refuted.
+Print Assumptions C17_vm_repeat_host_crash_before_fix.
 
 (* Over EVERY history of Push/Pop/Define/Resolve: two symbols that are alive
    at the same time (stored in any table of the current chain, shadowed or not)
